@@ -68,12 +68,18 @@ Definition bad_steps (cases : list pcase) : list nat :=
 (* specification oracle: one reconnect episode *)
 Inductive pscase :=
 | SPush (mode_poll : bool) (its : list item) (received : list preq)   (* what the device received from the reconnect to the sync *)
+| SPush2 (mode_poll : bool) (its win : list item) (received : list preq)
+      (* win: edits that landed while the reconnect sequence was in progress (sent as online edits or provisioned with the rest):
+         exactly once like the others, but not bound to come before the refresh *)
+| SOnline (its : list item) (received : list preq)   (* edits made while the slave is online, and all it received meanwhile *)
 | SPending (reported expected : list string)          (* "provisioning" shown right after an offline edit contains the names *)
 | SNothingPending (reported : list string).           (* "provisioning" shown at the sync point after the reconnect *)
 
 Definition pspec_ok (x : pscase) : bool :=
   match x with
   | SPush mp its rec => push_ok mp its rec
+  | SPush2 mp its win rec => pushed_once (its ++ win) rec && before_refresh mp its rec && nothing_spurious (its ++ win) rec
+  | SOnline its rec => pushed_once its rec && nothing_spurious its rec
   | SPending rep ex => forallb (fun n => mem n rep) ex
   | SNothingPending rep => match rep with [] => true | _ => false end
   end.
@@ -84,6 +90,9 @@ Definition spec_kinds (cases : list pscase) : list nat :=
   map (fun x => match x with
                 | SPush mp its rec => if negb (pushed_once its rec) then 1 else if negb (before_refresh mp its rec) then 2
                                       else if negb (nothing_spurious its rec) then 3 else 0
+                | SPush2 mp its win rec => if negb (pushed_once (its ++ win) rec) then 1 else if negb (before_refresh mp its rec) then 2
+                                           else if negb (nothing_spurious (its ++ win) rec) then 3 else 0
+                | SOnline its rec => if negb (pushed_once its rec) then 1 else if negb (nothing_spurious its rec) then 3 else 0
                 | SPending rep ex => if forallb (fun n => mem n rep) ex then 0 else 4
                 | SNothingPending rep => match rep with [] => 0 | _ => 5 end
                 end)%nat cases.
